@@ -309,6 +309,92 @@ TARGETS.append(dict(
     alias="def tcpPostInit (type : Nat) (quirks optQuirks : QSet) : Nat × QSet := (P0f.tcpType type, quirks.union optQuirks)\n",
 ))
 
+# ---------------------------------------------------------------------------------------------- C13
+UPTIME_RECORDS = {
+    "UptimeV": {"raw_frequency": (".1", "Q"), "frequency": (".2.1", "Int"), "total_minutes": (".2.2.1", "Int"), "modulo_days": (".2.2.2", "Int")},
+}
+UPTIME_LEAN = "Q × Int × Int × Int"
+TARGETS.append(dict(
+    module="pyp0f.fingerprint.results.uptime", func="Uptime.__post_init__", file="UptimePostInit", lean="uptimePostInit",
+    import_="P0f.Generated.Logic.RoundFrequency",
+    pyparams=["self", "timestamp"], params=[("timestamp", "Nat"), ("raw_frequency", "Q")], ret="Rec:UptimeV", lean_ret=UPTIME_LEAN,
+    env={"timestamp": ("timestamp", "Nat"), "self.raw_frequency": ("raw_frequency", "Q")},
+    assignable=("self.frequency", "self.total_minutes", "self.modulo_days"),
+    calls={"round_frequency": call_gen("P0f.Gen.roundFrequency", ["Q"], "Int")},
+    end=lambda fn, env: "(raw_frequency, " + ", ".join(as_int(*env["self." + f]) for f in ("frequency", "total_minutes", "modulo_days")) + ")",
+    alias="def uptimePostInit (timestamp : Nat) (raw_frequency : Q) : " + UPTIME_LEAN + " := P0f.uptimePostInit timestamp raw_frequency\n",
+))
+
+
+def _uptime_result(fn, args, kw, env):
+    if len(args) != 1 or set(kw) - {"tps", "uptime"}:
+        raise NotTranslatable("UptimeResult call shape")
+    tps = fn.expr(kw["tps"], env) if "tps" in kw else ("none", "Opt:_")
+    up = fn.expr(kw["uptime"], env) if "uptime" in kw else ("none", "Opt:_")
+
+    def opt(e, t, inner, ann):
+        if t == "Opt:_":
+            return f"({e} : Option {par(ann)})" if e == "none" else e
+        if t == "Opt:" + inner:
+            return e
+        if t == inner or (inner == "Int" and t in ("Nat", "Lit", "Flags")):
+            return f"(some {as_int(e, t) if inner == 'Int' else e})"
+        raise NotTranslatable(f"UptimeResult field of type {t}")
+    return ("(" + opt(*tps, "Int", "Int") + ", " + opt(*up, "Rec:UptimeV", UPTIME_LEAN) + ")", "Rec:UptimeResult")
+
+
+def _uptime_ctor(fn, args, kw, env):
+    if kw or len(args) != 2:
+        raise NotTranslatable("Uptime(...) call shape")
+    ts, tts = fn.expr(args[0], env)
+    raw, tr = fn.expr(args[1], env)
+    if tts != "Nat" or tr != "Q":
+        raise NotTranslatable("Uptime(...) argument types")
+    return (f"(P0f.Gen.uptimePostInit {par(ts)} {par(raw)})", "Rec:UptimeV")
+
+
+def _uptime_pre(stmts):
+    out = []
+    for st in stmts:
+        if isinstance(st, ast.Assign) and ast.unparse(st) == "packet = parse_packet(packet)":
+            continue
+        out.append(st)
+    return out
+
+
+UPRES_LEAN = "Option Int × Option (" + UPTIME_LEAN + ")"
+TARGETS.append(dict(
+    module="pyp0f.fingerprint.uptime", func="fingerprint_uptime", file="FingerprintUptime", lean="fingerprintUptime",
+    import_="P0f.Generated.Logic.UptimePostInit\nimport P0f.Generated.Logic.ValidUptime",
+    pyparams=["packet", "last_packet_signature", "options"],
+    params=[("o", "UpOpts"), ("isFragment", "Bool"), ("t", "Nat"), ("tsPrev", "Nat"), ("tsNow", "Nat"), ("now", "Int"), ("received", "Int")],
+    ret="Opt:Rec:UptimeResult", lean_ret="Option (" + UPRES_LEAN + ")", pre=_uptime_pre,
+    lean_types={"Rec:UptimeResult": UPRES_LEAN, "Rec:UptimeV": UPTIME_LEAN},
+    env={"packet": ("()", "Unit"),
+         "packet.tcp.options.timestamp": ("tsNow", "Nat"), "last_packet_signature.options.timestamp": ("tsPrev", "Nat"),
+         "last_packet_signature.received": ("received", "Int"), "packet.tcp.type": ("t", "Flags"),
+         "options.min_timestamp_wait": ("o.minWait", "Int"), "options.max_timestamp_wait": ("o.maxWait", "Int"),
+         "options.timestamp_grace": ("o.grace", "Int"),
+         "options.max_timestamp_scale": ("(Q.mk (o.maxScaleN : Int) o.maxScaleD)", "Q"),
+         "options.min_timestamp_scale": ("(Q.mk (o.minScaleN : Int) o.minScaleD)", "Q")},
+    records=UPTIME_RECORDS, raises={"PacketError": "none"},
+    calls={"valid_for_uptime_fingerprint": lambda fn, a, k, e: ("(P0f.Gen.validUptime isFragment t)", "Bool"),
+           "get_unix_time_ms": lambda fn, a, k, e: ("now", "Int"),
+           "UptimeResult": _uptime_result, "Uptime": _uptime_ctor},
+    alias="def fingerprintUptime (o : UpOpts) (isFragment : Bool) (t tsPrev tsNow : Nat) (now received : Int) : Option (" + UPRES_LEAN
+          + ") := P0f.fingerprintUptimeFields o isFragment t tsPrev tsNow (now - received)\n",
+))
+
+# ---------------------------------------------------------------------------------------------- C08
+TARGETS.append(dict(
+    module="pyp0f.net.signatures.mtu", func="MTUPacketSignature.from_mss", file="MtuFromMss", lean="mtuFromMss", import_="P0f.Model.Mtu",
+    decorators=("classmethod",), pyparams=["cls", "mss", "ip_version"], params=[("mss", "Nat"), ("ip_version", "Nat")],
+    ret="Opt:Int", lean_ret="Option Int", env={"mss": ("mss", "Nat"), "ip_version": ("ip_version", "Nat")},
+    raises={"PacketError": "none"},
+    calls={"cls": lambda fn, a, k, e: (as_int(*fn.expr(a[0], e)), "Int") if len(a) == 1 and not k else (_ for _ in ()).throw(NotTranslatable("cls(...) shape"))},
+    alias="def mtuFromMss (mss ip_version : Nat) : Option Int := if mss = 0 then none else some ((mss + P0f.mtuHdr ip_version : Nat) : Int)\n",
+))
+
 for t in TARGETS:
     if "import_" in t:
         t["import"] = t.pop("import_")
